@@ -53,7 +53,7 @@ func Load(repoDir, goarch string) (*Prog, error) {
 		Dir:     repoDir,
 		Env:     env,
 		Tests:   false,
-		Overlay: SwitchOverlay(repoDir),
+		Overlay: PredicateOverlay(repoDir, env, SwitchOverlay(repoDir)),
 	}
 	nOverlay := len(cfg.Overlay)
 	pkgs, err := packages.Load(cfg, "./...")
@@ -143,7 +143,7 @@ func Load(repoDir, goarch string) (*Prog, error) {
 		}
 	}
 	p.Stats["packages"] = len(p.Roots)
-	p.Stats["files_read_with_tagless_switches_as_if_chains"] = nOverlay
+	p.Stats["files_read_normalised_by_the_overlay"] = nOverlay
 	p.Stats["packages_with_deps"] = len(p.AllPkgs)
 	p.Stats["functions_all"] = len(p.AllFns)
 	p.Stats["functions_module"] = len(p.ModFns)
